@@ -51,10 +51,6 @@ func tcFragment(prog *parser.Program) (bool, string) {
 		case *parser.FuncCallStmt:
 			walk(n.FuncCall, true)
 		case *parser.BinaryExpression:
-			if n.Op == parser.OP_ASTERISK && n.Left.Type() != nil && n.Left.Type().Name == parser.ARRAY {
-				reason = "array repetition"
-				return
-			}
 			walk(n.Left, false)
 			walk(n.Right, false)
 		case *parser.UnaryExpression:
